@@ -271,6 +271,71 @@ def kmRun [Transc α] (tol : α) (st : KState α) : List (List (List α)) → Li
   | [] => []
   | b :: rest => let r := kmStep tol st b; r :: kmRun tol r.1 rest
 
+
+/-! ### mini-batch k-means with an arbitrary metric, inertia, first-batch initialisation -/
+
+/-- the `Distance` implementations of linfa-nn used with k-means: `rdistance` between two rows and
+`distance` between the old and the new centroid matrix (both matrices flattened row-major) -/
+inductive Metric where
+  | l2 | l1 | linf
+  deriving DecidableEq, Repr
+
+/-- `l1_dist`: sequential `result += |a - b|` -/
+def l1Dist (a b : List α) : α := sumS (List.zipWith (fun x y => absS (x - y)) a b)
+
+/-- `linf_dist`: `max = 0; if diff > max { max = diff }` -/
+def linfDist (a b : List α) : α :=
+  (List.zipWith (fun x y => absS (x - y)) a b).foldl (fun m d => if m < d then d else m) 0
+
+/-- `Distance::rdistance` (squared for L2, the distance itself otherwise) -/
+def rdistBy (m : Metric) (a b : List α) : α :=
+  match m with
+  | .l2 => sqDist a b
+  | .l1 => l1Dist a b
+  | .linf => linfDist a b
+
+/-- `Distance::distance` -/
+def distBy [Transc α] (m : Metric) (a b : List α) : α :=
+  match m with
+  | .l2 => Transc.sqrt (sqDist a b)
+  | .l1 => l1Dist a b
+  | .linf => linfDist a b
+
+/-- `closest_centroid` with the metric's `rdistance` -/
+def closestBy (m : Metric) (cs : List (List α)) (x : List α) : Nat × α :=
+  match cs with
+  | [] => (0, 0)
+  | c0 :: _ =>
+    cs.zipIdx.foldl (fun (best : Nat × α) (ci : List α × Nat) =>
+      let d := rdistBy m ci.1 x
+      if d < best.2 then (ci.2, d) else best) (0, rdistBy m c0 x)
+
+def kmAssignBy (m : Metric) (cs : List (List α)) (obs : List (List α)) : List Nat :=
+  obs.map fun x => (closestBy m cs x).1
+
+/-- `dists.sum() / n_samples` against the centroids at the start of the batch -/
+def kmInertiaBy (m : Metric) (cs : List (List α)) (obs : List (List α)) : α :=
+  sumS (obs.map fun x => (closestBy m cs x).2) / (obs.length : α)
+
+/-- one `fit_with` call for any metric: new state, `converged`, inertia of the batch -/
+def kmStepBy [Transc α] (m : Metric) (tol : α) (st : KState α) (obs : List (List α)) :
+    KState α × Bool × α :=
+  let st' := kmIncr st obs (kmAssignBy m st.centroids obs)
+  (st', decide (distBy m st.centroids.flatten st'.centroids.flatten < tol),
+    kmInertiaBy m st.centroids obs)
+
+def kmRunBy [Transc α] (m : Metric) (tol : α) (st : KState α) :
+    List (List (List α)) → List (KState α × Bool × α)
+  | [] => []
+  | b :: rest => let r := kmStepBy m tol st b; r :: kmRunBy m tol r.1 rest
+
+/-- the `n_runs` selection of `fit_with(None, ..)`:
+`.min_by(|(_, d1), (_, d2)| if d1 < d2 { Less } else { Greater })` over the candidates in order
+(`Iterator::min_by` keeps the earlier element only when the comparison says `Less`/`Equal`) -/
+def pickInit {β : Type} : List (β × α) → Option (β × α)
+  | [] => none
+  | x :: xs => some (xs.foldl (fun best y => if best.2 < y.2 then best else y) x)
+
 /-! ### FTRL-proximal -/
 
 structure FtrlHp (α : Type) where
